@@ -22,6 +22,7 @@ BUILTIN_EXC = {
     'StopIteration': 'Exception',
     'OverflowError': 'Exception',
     'UnicodeError': 'ValueError',
+    'UnicodeDecodeError': 'UnicodeError',
     'object': None,
     'dict': 'object',
     'ABC': 'object',
@@ -38,6 +39,8 @@ class Classes:
         """Canonical class name: 'ZConfig.X' -> '__init__.X', 'ValueError' -> 'builtin:ValueError'."""
         if name.startswith('builtin:') or name.startswith('ext:'):
             return name
+        if ('ext:' + name) in api.MODELS:
+            return 'ext:' + name
         if name.startswith('ZConfig.'):
             rest = name[len('ZConfig.'):]
             try:
@@ -52,6 +55,8 @@ class Classes:
         return name
 
     def is_real(self, q):
+        if q.startswith('ext:') or q.startswith('builtin:'):
+            return False
         try:
             self.src.cls(q)
             return True
